@@ -22,6 +22,10 @@ func c19dialect(d string) ([]qsql.ConfigFunc, string, bool) {
 		return []qsql.ConfigFunc{qsql.SQLite()}, "\"", false
 	case "mysql":
 		return []qsql.ConfigFunc{qsql.MySQL()}, "`", false
+	case "esc2": // a user-chosen escape character outside ASCII (two bytes of UTF-8)
+		return []qsql.ConfigFunc{qsql.EscapeChar('´')}, "´", false
+	case "esc3": // three bytes of UTF-8, together with incrementing placeholders
+		return []qsql.ConfigFunc{qsql.EscapeChar('”'), qsql.Incrementing()}, "”", true
 	case "plain":
 		return nil, "", false
 	case "incr":
